@@ -3,19 +3,19 @@
 #include <stdlib.h>
 #include "lin.h"
 
-#define MEMO_BITS 15
+#define MEMO_BITS 16
 #define MEMO_SIZE (1u << MEMO_BITS)
-struct memo_ent { uint32_t done; struct lin_state s; int used; };
+struct memo_ent { uint64_t done; struct lin_state s; int used; };
 static struct memo_ent *memo;
 static unsigned long nodes_visited, budget;
 
-static uint64_t hash_key(uint32_t done, const struct lin_state *s)
+static uint64_t hash_key(uint64_t done, const struct lin_state *s)
 {
-	uint64_t h = 1469598103934665603ull ^ done;
+	uint64_t h = (1469598103934665603ull ^ done) * 1099511628211ull; h ^= h >> 31;
 	for (int i = 0; i < LIN_STATE_WORDS; i++) { h ^= s->w[i]; h *= 1099511628211ull; h ^= h >> 29; }
 	return h;
 }
-static int memo_seen(uint32_t done, const struct lin_state *s)
+static int memo_seen(uint64_t done, const struct lin_state *s)
 {
 	uint64_t h = hash_key(done, s);
 	for (unsigned i = 0; i < 64; i++) {
@@ -28,9 +28,9 @@ static int memo_seen(uint32_t done, const struct lin_state *s)
 
 static const struct lin_op *g_ops; static int g_n; static lin_apply_fn g_apply; static void *g_ctx; static struct lin_state g_final;
 
-static int dfs(uint32_t done, const struct lin_state *s)
+static int dfs(uint64_t done, const struct lin_state *s)
 {
-	if (done == (g_n == 32 ? 0xffffffffu : (1u << g_n) - 1)) { g_final = *s; return 1; }
+	if (done == (g_n == 64 ? ~0ull : (1ull << g_n) - 1)) { g_final = *s; return 1; }
 	if (++nodes_visited > budget) return -1;
 	if (memo_seen(done, s)) return 0;
 	/* an undone op is a candidate iff no other undone op returned before it was called */
@@ -40,9 +40,10 @@ static int dfs(uint32_t done, const struct lin_state *s)
 	for (int i = 0; i < g_n; i++) {
 		if (done >> i & 1) continue;
 		if (g_ops[i].call > min_ret) continue;
+		if (g_ops[i].dep && !(done >> (g_ops[i].dep - 1) & 1)) continue;
 		struct lin_state t = *s;
 		if (!g_apply(&g_ops[i], &t, g_ctx)) continue;
-		int r = dfs(done | 1u << i, &t);
+		int r = dfs(done | 1ull << i, &t);
 		if (r == 1) return 1;
 		if (r < 0) inconclusive = 1;
 	}
